@@ -28,7 +28,10 @@ def svcKeys : List String := [
   "field sche.RunTask.cb",                  -- Sche.doTask → posted closure
   "field timer.Obj.CB",                     -- timer.Mgr.do → timer callback
   "field event.EListener.CB",               -- LocalEventCenter.dispatch → listener
-  "value func()",                           -- scheDisp / stableDisp selector → mailbox run (→ actor.Receive)
+  "value func()",                           -- scheDisp / stableDisp selector → mailbox run
+  "iface actor.MessageInvoker.InvokeUserMessage",   -- mailbox run → actor.Receive (requests, responses, notifies)
+  "iface actor.MessageInvoker.InvokeSystemMessage", -- mailbox run → Started / Stop handling
+  "iface actor.MessageInvoker.EscalateFailure",
   -- invocation points inside the actor's Receive
   "field service.RequestWaitResponse.CB",   -- response / timeout callback
   "value service.ResCBFunc",                -- serialisation-failure callback inside Request
@@ -50,6 +53,14 @@ def utilKeys : List String := [
   "iface sche.IChanSelector.GetChannel",
   "iface event.ILocalEventCenter.GetChanEvent",
   "iface event.ILocalEventCenter.GetId",
+  "iface mailbox.queue.Pop", "iface mailbox.queue.Push",
+  "ext actorex/queue/goring", "ext actorex/queue/mpsc",
+  "iface actor.Dispatcher.Schedule",        -- the enqueue of a mailbox run (scheDisp.Schedule: channel send)
+  "iface actor.Dispatcher.Throughput",
+  "iface actor.MailboxMiddleware.MailboxEmpty", "iface actor.MailboxMiddleware.MailboxStarted",
+  "iface actor.MailboxMiddleware.MessagePosted", "iface actor.MailboxMiddleware.MessageReceived",
+  "iface actor.MessageBatch.GetMessages",
+  "iface actor.infoPart.Self", "iface actor.messagePart.Message", "iface actor.senderPart.Send",  -- actor.Context
   "iface utils/common",                     -- IMutex
   "iface utils/logger/interfaces",
   "ext utils/common",
@@ -92,23 +103,30 @@ def reviewedLitKinds : List String := [
   "arg:sche.Sche.Post",                     -- run by Sche.doTask
   "arg:timer.NewTimerObj", "arg:timer.Mgr.AddTimer", "arg:timer.Mgr.After",   -- stored in Obj.CB, run by timer.Mgr.do
   "arg:apimapper/apientry.CallWithSerialize",        -- completion callback handed to the handler
+  "funcvalue:arg:iface actor.Dispatcher.Schedule",   -- m.processMessages handed to the dispatcher
+  "return:mailbox.Producer",                -- mailbox constructor closure
   "arg:actor.PropsFromProducer"]            -- actor construction
 
 /-- stored closure: (site key that calls it, literal kind that stores it) -/
 def dispatchRules : List (String × String) := [
   ("field sche.FuncSelector.fun", "arg:sche.NewFuncSelector"),
   ("field sche.RunTask.cb", "arg:sche.Sche.Post"),
+  ("value func()", "funcvalue:arg:iface actor.Dispatcher.Schedule"),
   ("field timer.Obj.CB", "arg:timer.NewTimerObj"),
   ("field timer.Obj.CB", "arg:timer.Mgr.AddTimer"),
   ("field timer.Obj.CB", "arg:timer.Mgr.After")]
 
-/-- trusted link through proto.actor: the scheduled mailbox run calls the actor's `Receive` -/
-def frameworkLinks : List (String × String) := [("value func()", "service.Service.Receive")]
+/-- trusted link through proto.actor: the mailbox's invoker (the actor context) calls the actor's `Receive` -/
+def frameworkLinks : List (String × String) := [
+  ("iface actor.MessageInvoker.InvokeUserMessage", "service.Service.Receive"),
+  ("iface actor.MessageInvoker.InvokeSystemMessage", "service.Service.Receive")]
 
 /-- site keys every occurrence of which must lie on a consumer loop -/
 def loopKeys : List String := [
   "iface sche.IChanSelector.DoTask", "field sche.FuncSelector.fun", "field sche.RunTask.cb",
   "field timer.Obj.CB", "field event.EListener.CB", "value func()",
+  "iface actor.MessageInvoker.InvokeUserMessage", "iface actor.MessageInvoker.InvokeSystemMessage",
+  "iface actor.MessageInvoker.EscalateFailure",
   "field service.RequestWaitResponse.CB", "iface service.IAPIDispatcher.Dispatch",
   "iface service.IRequestReceiver.ReceiveRequest", "field service.ExtProps.PostStartFuncs[]",
   "ext apimapper/apientry"]
